@@ -56,6 +56,7 @@ func (fr *Frame) call(x *ssa.Call, st *State, reach string) Val {
 		ins = append(ins, predIn{sub, g})
 		results = append(results, res)
 	}
+	pre := st.clone()
 	merged, _ := fr.mergeStates(ins, "disp")
 	*st = *merged
 	// merge results
@@ -86,6 +87,26 @@ func (fr *Frame) call(x *ssa.Call, st *State, reach string) Val {
 			return c.define("dres", sort, term)
 		}
 		out = append(out, fr.mergeVals(vs, mt))
+	}
+	// restate every callee postcondition over the merged state (saves the solver from
+	// reasoning through the ite-merged heap arrays)
+	for i, t := range targets {
+		fc := c.pr.Cs.Funcs[c.pr.funcName(t)]
+		if fc == nil || fc.Inline {
+			continue
+		}
+		var targs []Val
+		if byRecv {
+			targs = []Val{{K: KRef, T: t.Params[0].Type(), C: []string{fv.C[1]}, SName: c.pr.heapStructOf(deref(t.Params[0].Type()))}}
+		} else {
+			targs = args
+		}
+		post := fr.calleeEnv(t, targs, st, pre)
+		post.results = out
+		for _, en := range fc.Ensures {
+			g := fr.evalBool(en.E, post, en)
+			c.assume(sImp(sAnd(reach, guards[i]), g))
+		}
 	}
 	return tupleOrSingle(out, sig)
 }
@@ -423,6 +444,8 @@ func (fr *Frame) external(callee *ssa.Function, x *ssa.Call, args []Val, st *Sta
 		}
 		c.assume(sImp("(and (> "+s.C[2]+" 0) (< "+first+" 128))", "(and (> "+r.C[2]+" 0) (= (select "+r.C[0]+" 0) "+m0+"))"))
 		c.assume(sImp(sEq(s.C[2], "0"), sEq(r.C[2], "0")))
+		// a lone byte >= 0x80 is invalid UTF-8 and is mapped to U+FFFD (EF BF BD)
+		c.assume(sImp("(and (= "+s.C[2]+" 1) (>= "+first+" 128))", "(and (= "+r.C[2]+" 3) (= (select "+r.C[0]+" 0) 239) (= (select "+r.C[0]+" 1) 191) (= (select "+r.C[0]+" 2) 189))"))
 		// the result is a function of the argument's content
 		c.recordCase(full, s, r)
 		return r
